@@ -161,6 +161,27 @@ func runC12(c *Ctx) {
 			inLoop = true
 		}
 		_, isCall := flow.Peel(c.up(recv)).(*ssa.Call)
+		// … and it is not given new identifiers or new AVPs between transmissions: no store to the message's
+		// Hop-by-Hop / End-to-End identifier and no AVP added to it inside the loop
+		flow.Instrs(hs, func(in ssa.Instruction) {
+			if !rl.loop.Blocks[in.Block()] {
+				return
+			}
+			switch x := in.(type) {
+			case *ssa.Store:
+				root, fields, ok := fieldPathThrough(x.Addr, flow.Peel(recv))
+				if ok && root == flow.Peel(recv) && len(fields) > 0 {
+					switch fields[len(fields)-1] {
+					case "HopByHopID", "EndToEndID", "AVP", "CommandCode", "ApplicationID":
+						inLoop = true
+					}
+				}
+			case *ssa.Call:
+				if (flow.IsCallTo(x, pkgDiam, "Message", "NewAVP") || flow.IsCallTo(x, pkgDiam, "Message", "AddAVP") || flow.IsCallTo(x, pkgDiam, "Message", "InsertAVP")) && len(x.Call.Args) > 0 && flow.Peel(x.Call.Args[0]) == flow.Peel(recv) {
+					inLoop = true
+				}
+			}
+		})
 		r.Check(!inLoop && isCall, "R3", key, c.pos(rl.write), "the message written in the loop is built once before the loop (same CER, same identifiers, retransmitted)", "the CER is rebuilt inside the retransmission loop (each retransmission carries new identifiers, so an answer to an earlier transmission no longer matches) or is not the result of the CER builder")
 	}
 
